@@ -790,7 +790,7 @@ fn apply<S: AdjSut>(sut: &mut S, cx: &mut Ctx, op: &Op, kind: &'static str) -> R
                         if cx.m.node(idx).is_some() {
                             fail!("index-live", "new node got index {} which is currently live", idx);
                         }
-                        if idx >= mx || idx > cx.m.nodes.len() + 64 {
+                        if idx >= mx || (idx > cx.m.nodes.len() + 64 && idx >= (1 << 20)) {
                             fail!("index-range", "new node got implausible index {} ({} slots in use)", idx, cx.m.nodes.len());
                         }
                         cx.acc.probe_if(idx < cx.m.nodes.len(), "stable_node_vacancy_reused");
@@ -855,7 +855,7 @@ fn apply<S: AdjSut>(sut: &mut S, cx: &mut Ctx, op: &Op, kind: &'static str) -> R
                             if cx.m.edge(e).is_some() {
                                 fail!("index-live", "new edge got index {} which is currently live", e);
                             }
-                            if e >= mx || e > cx.m.edges.len() + 64 {
+                            if e >= mx || (e > cx.m.edges.len() + 64 && e >= (1 << 20)) {
                                 fail!("index-range", "new edge got implausible index {} ({} slots in use)", e, cx.m.edges.len());
                             }
                             cx.acc.probe_if(e < cx.m.edges.len(), "stable_edge_vacancy_reused");
@@ -1258,7 +1258,7 @@ fn apply<S: AdjSut>(sut: &mut S, cx: &mut Ctx, op: &Op, kind: &'static str) -> R
                                 if target.edge(idx).is_some() {
                                     fail!("index-live", "{} placed a new edge at live index {}", kind, idx);
                                 }
-                                if idx > target.edges.len() + 64 {
+                                if idx > target.edges.len() + 64 && idx >= (1 << 20) {
                                     fail!("index-range", "{} placed a new edge at implausible index {}", kind, idx);
                                 }
                                 target.insert_edge(idx, a, b, w);
@@ -1324,7 +1324,7 @@ fn apply<S: AdjSut>(sut: &mut S, cx: &mut Ctx, op: &Op, kind: &'static str) -> R
                 let w = cx.fresh();
                 match catch(|| sut.try_add_node(w)) {
                     Ok(Ok(idx)) => {
-                        if cx.m.node(idx).is_some() || idx > cx.m.nodes.len() {
+                        if cx.m.node(idx).is_some() || idx >= mx {
                             fail!("index", "bulk add_node returned index {}", idx);
                         }
                         cx.m.insert_node(idx, w);
@@ -1348,7 +1348,7 @@ fn apply<S: AdjSut>(sut: &mut S, cx: &mut Ctx, op: &Op, kind: &'static str) -> R
                     let w = cx.fresh();
                     match catch(|| sut.add_edge(a, b, w, EdgeMode::TryAdd)) {
                         Ok(Ok(e)) => {
-                            if cx.m.edge(e).is_some() || e > cx.m.edges.len() {
+                            if cx.m.edge(e).is_some() || e >= mx {
                                 fail!("index", "bulk add_edge returned index {}", e);
                             }
                             cx.m.insert_edge(e, a, b, w);
@@ -1471,4 +1471,129 @@ fn diff_obs(a: &Obs, b: &Obs) -> String {
         }
     }
     "observations differ".to_string()
+}
+
+// ---------------------------------------------------------------------------------------
+// deep consistency of a graph that did not come from a history (C17: a graph handed back
+// by a deserialiser fed with hostile input)
+// ---------------------------------------------------------------------------------------
+
+/// Build a model from the public observation of `sut` (fails if the observation itself is
+/// inconsistent, e.g. an edge whose endpoint is not a live node).
+pub fn model_from_sut<S: AdjSut>(sut: &S) -> Result<(AdjModel, ObsPlan, Obs), (&'static str, String)> {
+    let nl = catch(|| sut.node_listing()).map_err(|p| ("listing-panic", format!("node_references panicked: {}", p)))?;
+    let el = catch(|| sut.edge_listing()).map_err(|p| ("listing-panic", format!("edge_references panicked: {}", p)))?;
+    let mx = S::max_index();
+    let mut nodes: Vec<usize> = nl.iter().map(|x| x.0).collect();
+    if nodes.iter().any(|&i| i >= mx || i > 1_000_000) {
+        return Err(("node-index-range", format!("node listing contains an impossible index: {:?}", nodes.iter().max())));
+    }
+    let slots = nodes.iter().max().map(|m| m + 1).unwrap_or(0);
+    // probe a few absent ones too
+    for x in [slots, slots + 1, mx] {
+        nodes.push(x.min(mx));
+    }
+    // plus the vacancies below the bound
+    for i in 0..slots {
+        if !nodes.contains(&i) {
+            nodes.push(i);
+        }
+    }
+    let eslots = el.iter().map(|x| x.0).max().map(|m| m + 1).unwrap_or(0);
+    if eslots > 1_000_000 {
+        return Err(("edge-index-range", format!("edge listing contains an impossible index {}", eslots - 1)));
+    }
+    let mut edges: Vec<usize> = (0..eslots).collect();
+    for x in [eslots, eslots + 1, mx] {
+        edges.push(x.min(mx));
+    }
+    let mut pairs = Vec::new();
+    let probe: Vec<usize> = nodes.iter().copied().take(10).collect();
+    for &a in &probe {
+        for &b in &probe {
+            pairs.push((a, b));
+        }
+    }
+    let plan = ObsPlan { nodes, edges, pairs };
+    let obs = catch(|| sut.snapshot(&plan)).map_err(|p| ("observe-panic", format!("a query panicked on the loaded graph: {}", p)))?;
+    let mut m = AdjModel::new(!S::STABLE, S::directed(), mx);
+    let mut seen = BTreeSet::new();
+    for &(i, w) in &obs.node_refs {
+        if !seen.insert(i) {
+            return Err(("duplicate-node", format!("node_references lists node {} twice", i)));
+        }
+        m.insert_node(i, w);
+    }
+    let mut seen = BTreeSet::new();
+    for &(e, a, b, w) in &obs.edge_refs {
+        if !seen.insert(e) {
+            return Err(("duplicate-edge", format!("edge_references lists edge {} twice", e)));
+        }
+        if m.node(a).is_none() || m.node(b).is_none() {
+            return Err(("edge-endpoint-not-live", format!("edge {} joins {} -> {} but node {} is not a live node (live: {:?})", e, a, b, if m.node(a).is_none() { a } else { b }, m.live_nodes())));
+        }
+        m.insert_edge(e, a, b, w);
+    }
+    adopt_order(&mut m, &obs).map_err(|d| ("adjacency-lists", d))?;
+    check_obs(&m, &obs, &plan)?;
+    Ok((m, plan, obs))
+}
+
+/// The loaded graph must satisfy every consistency guarantee of its type *under further
+/// use*: visit invariant, then a seeded follow-up history in lock-step with a model that
+/// was initialised from the graph's own public observation.
+pub fn deep_consistency<S: AdjSut>(prefix: &'static str, mut sut: S, width: Width, follow_seed: u64, follow_len: usize, acc: &mut Acc) -> Result<(), (String, String)>
+where
+    S::Flipped: AdjSut<Flipped = S>,
+{
+    let (m, _plan, _obs) = model_from_sut(&sut).map_err(|(c, d)| (format!("loaded/{}", c), d))?;
+    match catch(|| sut.visit_check(follow_seed)) {
+        Ok(Ok(())) => {}
+        Ok(Err((c, d))) => return Err((format!("loaded/visit-{}", c), d)),
+        Err(p) => return Err(("loaded/visit-panic".into(), format!("a visit-trait call panicked on the loaded graph: {}", p))),
+    }
+    let cfg = Cfg {
+        stable: S::STABLE,
+        directed: S::directed(),
+        width,
+        cap: None,
+        create_via_trait: false,
+        size_class: 1,
+        fault_permille: 150,
+        // no into_edge_type / bulk ops in the follow-up
+        disabled: (1 << 24) | (1 << 29) | (1 << 30),
+        obs_seed: follow_seed ^ 0x0b5,
+    };
+    let mut ops = Vec::new();
+    let mut cx = Ctx {
+        prefix,
+        mode: Mode::Refine,
+        cfg: &cfg,
+        acc,
+        ops: &mut ops,
+        m,
+        next_w: 3_000_000_000,
+        step: 0,
+        obs_rng: Rng::new(cfg.obs_seed),
+        edges_added: 0,
+        removals: 0,
+        faults: 0,
+        last_was_removal: true,
+    };
+    // weights of a loaded graph need not be unique; the lock-step model identifies elements by
+    // weight after multi-removals, so give every element a fresh one first
+    for op in [Op::RewriteNodeW, Op::RewriteEdgeW] {
+        let (kind, _) = op.kind();
+        if let Err(ex) = apply(&mut sut, &mut cx, &op, kind) {
+            let v = ex.violation.unwrap();
+            return Err((format!("followup/{}", v.class), v.detail));
+        }
+        cx.step += 1;
+    }
+    let mut feed = OpFeed::Gen { rng: Rng::new(follow_seed), remaining: follow_len };
+    let ex = run_steps(sut, &mut cx, &mut feed);
+    match ex.violation {
+        None => Ok(()),
+        Some(v) => Err((format!("followup/{}", v.class), format!("{} (follow-up history so far: {:?})", v.detail, ops))),
+    }
 }
